@@ -91,8 +91,36 @@ class C08(Prop):
             yield {"k": "wideentropy", "rows": rows2, "r": r2, "block": {"rows": ins_to_state(m), "r": r2}, "n": nn, "kk": k,
                    "regions": regions, "form": ("list", "mask", "ndarray")[(i + 1) % 3]}
 
+        # very wide pure states (129..140 qubits): GHZ states in other local bases (every qubit rotated by S and / or H), so
+        # that a stabilizer has 128 or more Y / X letters on one side of the cut
+        for j, nn in enumerate((129, 130, 140) if thorough else (129, 130)):
+            regions = [list(range(1, 129)), [129], list(range(2, nn + 1)), list(range(1, nn + 1)), [], [1, nn], list(range(1, nn, 2))]
+            for basis in ("Y", "X", "mixed")[: 3 if thorough else 2]:
+                yield {"k": "ghzentropy", "n": nn, "basis": basis, "regions": regions, "form": ("list", "mask")[j % 2], "pkg": "py"}
+
     def execute(self, scn, be):
         import numpy
+        if scn["k"] == "ghzentropy":
+            nn = scn["n"]
+            rec = {"op": "ghzentropy", "n": nn, "basis": scn["basis"], "regions": scn["regions"], "form": scn["form"]}
+            try:
+                S = be.stabilizer.ghz_state(nn)
+                C = be.circuit
+                for q in range(nn):
+                    if scn["basis"] in ("Y",) or (scn["basis"] == "mixed" and q % 3 == 0):
+                        C.S(q).forward(S)          # Z-type generators stay, the X string becomes a Y string
+                    elif scn["basis"] == "X" or (scn["basis"] == "mixed" and q % 3 == 1):
+                        C.H(q).forward(S)
+                vals = []
+                for reg in scn["regions"]:
+                    z = [q - 1 for q in reg]
+                    arg = z if scn["form"] == "list" else numpy.array([(j in set(z)) for j in range(nn)], dtype=numpy.bool_)
+                    v = _as_int(S.entropy(arg))
+                    vals.append(-99 if v is None else v)
+                rec["vals"] = vals
+            except Exception as e:
+                rec["exc"] = _exc(e)
+            return [rec]
         n = len(scn["rows"]) // 2
         rec = {"op": "entropy", "form": scn["form"], "pre": {"rows": scn["rows"], "r": scn["r"]}, "regions": scn["regions"]}
         if scn["k"] == "wideentropy":
